@@ -25,7 +25,9 @@ type termInfo struct {
 }
 
 var gIdents = []string{"k", "v", "col1", "name", "\"Quoted\"", "ts", "value", "key", "json", "ttl", "contains", "filtering", "list1", "m", "s"}
-var gTables = []string{"t", "ks.t", "ks1.tbl", "\"Ks\".\"T\"", "system.t", "users"}
+// (tables and keyspaces named like the words the classifier looks for as unreserved keywords are ordinary names)
+var gTables = []string{"t", "ks.t", "ks1.tbl", "\"Ks\".\"T\"", "system.t", "users", "t", "ks.t",
+	"json", "ks.json", "json.t", "values", "ks.values", "ttl", "timestamp", "ks.set", "counter", "unlogged.t", "key", "like", "contains", "\"json\""}
 var gFuncs = []string{"f", "ks.fn", "tojson", "token", "mintimeuuid", "dateof", "blobasint", "my.now", "other.uuid", "nowx", "uuids"}
 var gTypes = []string{"int", "text", "frozen<list<int>>", "map<text, int>", "ks.udt", "bigint"}
 
@@ -161,7 +163,15 @@ func gWhere(r *rng.R, depth int) (string, bool, bool) {
 			use(t)
 		case 1:
 			a, b := gTerm(r, depth-1), gTerm(r, depth-1)
-			parts = append(parts, col+" IN ("+a.text+", "+b.text+")")
+			list := a.text + ", " + b.text
+			if r.Chance(1, 8) { // a long IN list
+				for j := 0; j < 30+r.Intn(30); j++ {
+					x := gTerm(r, 0)
+					list += ", " + x.text
+					use(x)
+				}
+			}
+			parts = append(parts, col+" IN ("+list+")")
 			use(a, b)
 		case 2:
 			parts = append(parts, col+" IN ?")
@@ -209,6 +219,9 @@ func genInsert(r *rng.R, depth int) genStmt {
 		g.text = "INSERT INTO " + r.Pick(gTables) + " JSON " + r.Pick([]string{"'{\"k\": 1}'", "?", "'{}' DEFAULT UNSET"})
 	} else {
 		n := 1 + r.Intn(4)
+		if r.Chance(1, 15) { // a wide row
+			n, depth = 20+r.Intn(45), 0
+		}
 		var cols, vals []string
 		for i := 0; i < n; i++ {
 			cols = append(cols, r.Pick(gIdents))
@@ -343,7 +356,11 @@ func genStatement(r *rng.R, depth int) genStmt {
 			g.idem, g.plain = false, false
 		}
 		g.text = "BEGIN " + mode + "BATCH" + gUsing(r) + " "
-		for i := 0; i < 1+r.Intn(3); i++ {
+		children := 1 + r.Intn(3)
+		if r.Chance(1, 10) { // a long batch
+			children = 8 + r.Intn(12)
+		}
+		for i := 0; i < children; i++ {
 			var c genStmt
 			switch r.Intn(3) {
 			case 0:
